@@ -120,6 +120,9 @@ let rel_of api a =
   | "hkdfx" | "hkdfx_secure" | "hkdfkiv" -> rel_hkdf_extract true (g 1) (if List.nth a 2 = "-" then None else Some (g 2))
   | "hkdfe" | "hkdfe_secure" -> rel_get_hmac true SHA256 (g 1) []
   | "b64dec_secure" | "b32dec_secure" | "b36dec_secure" -> []      (* the decoded bytes are supplied by the generator *)
+  | "ss_reveal" | "ss_cb" -> rel_secret_reveal true false (g 1)
+  | "ss_cb_throw_std" | "ss_cb_throw_other" -> rel_secret_reveal true true (g 1)
+  | "ss_set" | "ss_rotate" | "ss_move" -> []                       (* ciphertext and secure buffers only *)
   | _ -> failwith "rel api"
 
 let run toks =
@@ -134,6 +137,8 @@ let run toks =
       let c = ref (h_fresh t) and outs = ref [] in
       List.iter (fun o ->
         if o = "I" then c := hinit !c
+        else if o = "K" then ()                                                       (* continuing on a copy: same state *)
+        else if o = "k" then (let (_, d) = hfinish !c in outs := hx d :: !outs)       (* a copy is finished, the original keeps its state *)
         else if o = "F" then (let (c', d) = hfinish !c in c := c'; outs := hx d :: !outs)
         else if String.length o >= 2 && o.[0] = 'U' then c := hupdate !c (bx (String.sub o 2 (String.length o - 2)))
         else if String.length o >= 2 && o.[0] = 'J' then c := h_inject !c (n_of_dec (String.sub o 2 (String.length o - 2)))
@@ -155,6 +160,8 @@ let run toks =
       List.iter (fun o ->
         let arg () = bx (String.sub o 2 (String.length o - 2)) in
         if o = "F" then (let (h', d) = hmac_final !h in h := h'; outs := hx d :: !outs)
+        else if o = "K" then ()
+        else if o = "k" then (let (_, d) = hmac_final !h in outs := hx d :: !outs)
         else if o.[0] = 'I' then h := hmac_init !h (arg ())
         else if o.[0] = 'U' then h := hmac_update !h (arg ())
         else failwith "hmachist op") ops;
@@ -230,10 +237,13 @@ let run toks =
       let pk = bx pk in
       let st = ref ss_empty and cur = ref [] and out = ref [] in
       List.iter (fun o ->
+        (match split_on ':' o with
+         | ["N"] -> ()      (* a move to another object and back / a self move: the object is unchanged *)
+         | _ ->
         let sop = match split_on ':' o with
           | ["S"; n; p] -> SSet (bx n, bx p) | ["R"; n] -> SRotate (bx n) | ["C"] -> SClear
           | ["I"; n; p] -> SMoveIn (bx n, bx p) | ["O"] -> SMoveOut | _ -> failwith "ssmodel op" in
-        st := ss_step pk !st sop; cur := ss_last !cur sop;
+        st := ss_step pk !st sop; cur := ss_last !cur sop);
         let rv = match ss_reveal pk !st with Ok d -> "ok " ^ hx d | Throw e -> exn_s e in
         out := ("ct=" ^ hx !st.ss_ct ^ ",nonce=" ^ hx !st.ss_nonce ^ ",tag=" ^ hx !st.ss_tag ^ ",reveal=" ^ rv ^
                 ",expected=" ^ hx !cur ^ ",heap=clean,wipe=clean,opaque=yes,tamper=ok") :: !out) ops;
